@@ -65,6 +65,9 @@ type Plan struct {
 	Faults         []Fault  `json:"faults"`
 	FailOpens      []int    `json:"failopens"` // indexes of stream-open attempts (>= 1) that fail
 	Outages        []Outage `json:"outages"`
+	// SrvErr: the SrvErr[0]-th watch the server opens on the backing state ends, after SrvErr[1] events, with an
+	// Errored event (nil = never): the remote watch has to end with Errored too, or carry on transparently.
+	SrvErr []int `json:"srverr,omitempty"`
 }
 
 var ids = []string{"a", "b", "c"}
@@ -116,6 +119,10 @@ func Gen(t *rapid.T) Plan {
 	}), 0, 2).Draw(t, "outages")
 
 	sort.SliceStable(p.Outages, func(i, j int) bool { return p.Outages[i].AtMs < p.Outages[j].AtMs })
+
+	if rapid.IntRange(0, 3).Draw(t, "hassrverr") == 0 {
+		p.SrvErr = []int{rapid.SampledFrom([]int{0, 0, 1, 2}).Draw(t, "srverr-watch"), rapid.IntRange(1, 8).Draw(t, "srverr-after")}
+	}
 
 	return p
 }
@@ -403,7 +410,12 @@ func runBubble(p Plan) (v hk.Verdict) {
 	core := sim.NewNamespaced(inmem.WithHistoryInitialCapacity(p.Cap[0]), inmem.WithHistoryMaxCapacity(p.Cap[1]), inmem.WithHistoryGap(p.Cap[2]))
 	st := state.WrapCore(core)
 
-	tr := &transport{handler: server.NewState(core), plan: p, start: time.Now(), failOpens: map[int]bool{}}
+	var srvCore state.CoreState = core
+	if len(p.SrvErr) == 2 {
+		srvCore = &srvErrState{CoreState: core, nth: p.SrvErr[0], after: p.SrvErr[1]}
+	}
+
+	tr := &transport{handler: server.NewState(srvCore), plan: p, start: time.Now(), failOpens: map[int]bool{}}
 	for _, f := range p.FailOpens {
 		tr.failOpens[f] = true
 	}
@@ -525,17 +537,19 @@ func runBubble(p Plan) (v hk.Verdict) {
 
 	errored := len(got) > 0 && got[len(got)-1].Type == state.Errored
 
-	for i, e := range got {
-		if e.Type == state.Errored && i != len(got)-1 {
-			v.Failf("Errored event at position %d of %d is not last: %s", i, len(got), descAll(got))
+	// the termination signal ends the stream: nothing but further Errored events may follow it (a watch the server ended
+	// with Errored reports the loss of its transport as a second Errored: the statement does not forbid repeating it)
+	body := got
+	for errored && len(body) > 0 && body[len(body)-1].Type == state.Errored {
+		body = body[:len(body)-1]
+	}
+
+	for i, e := range body {
+		if e.Type == state.Errored {
+			v.Failf("Errored event at position %d of %d is followed by other events: %s", i, len(got), descAll(got))
 
 			return v
 		}
-	}
-
-	body := got
-	if errored {
-		body = got[:len(got)-1]
 	}
 
 	if len(body) > len(want) {
